@@ -382,4 +382,12 @@ theorem atomic_glue_forwards_flags :
        ("WaitForJobs", "u.WaitForJobs")] = true := by
   decide
 
+/-- The flags of the failure clauses are bound to the fields the theorems are about (regenerated from pkg/cmd
+at every run): each flag is bound exactly once in its command, to the same-named field of the action. -/
+theorem failure_flags_bound :
+    Helm.Spec.forwardsAll Helm.Gen.installFlags [("atomic", "client.Atomic"), ("wait-for-jobs", "client.WaitForJobs"), ("timeout", "client.Timeout")] = true ∧
+    Helm.Spec.forwardsAll Helm.Gen.upgradeFlags [("atomic", "client.Atomic"), ("cleanup-on-fail", "client.CleanupOnFail"), ("install", "client.Install"), ("timeout", "client.Timeout")] = true ∧
+    Helm.Spec.forwardsAll Helm.Gen.rollbackFlags [("cleanup-on-fail", "client.CleanupOnFail"), ("timeout", "client.Timeout")] = true := by
+  decide
+
 end Helm.Props.C03
